@@ -134,6 +134,7 @@ impl SubCheck for DateTimeText {
         let ug = call("Debug", || format!("{u:?}"))?;
         ensure_eq!(ug, format!("{ds}T{ts}Z"), "DateTime<Utc> Debug");
         ensure_eq!(call("FromStr", || ug.parse::<DateTime<Utc>>())?.ok(), Some(u), "{ug:?}.parse::<DateTime<Utc>>()");
+        ensure_eq!(call("FromStr", || ug.parse::<DateTime<chrono::Local>>())?.ok().map(|x| x.naive_utc()), Some(n), "{ug:?}.parse::<DateTime<Local>>() instant");
         let uf = call("FromStr", || ug.parse::<DateTime<FixedOffset>>())?.ok();
         ensure_eq!(uf.map(|x| (x.naive_utc(), x.offset().local_minus_utc())), Some((n, 0)), "{ug:?}.parse::<DateTime<FixedOffset>>()");
         // fixed offset: (z, t) is the wall clock; the value exists iff wall - offset is representable
@@ -149,6 +150,7 @@ impl SubCheck for DateTimeText {
                 let p = call("FromStr", || s.parse::<DateTime<FixedOffset>>())?.ok();
                 ensure_eq!(p.map(|x| (x.naive_utc(), x.offset().local_minus_utc())), Some((f.naive_utc(), off)), "{s:?}.parse::<DateTime<FixedOffset>>() ({form} form)");
                 ensure_eq!(call("FromStr", || s.parse::<DateTime<Utc>>())?.ok().map(|x| x.naive_utc()), Some(f.naive_utc()), "{s:?}.parse::<DateTime<Utc>>()");
+                ensure_eq!(call("FromStr", || s.parse::<DateTime<chrono::Local>>())?.ok().map(|x| x.naive_utc()), Some(f.naive_utc()), "{s:?}.parse::<DateTime<Local>>() instant");
             }
         } else {
             obs.label("wall_clock_unrepresentable_at_offset");
